@@ -6,15 +6,22 @@
    Proofs/PureTie.v, Proofs/PureTieKeys.v are about them), on every run.
    spec_ok is trivially true here: the properties are judged elsewhere. *)
 From Coq Require Import String.
-From Curtsies Require Import Model.Base Spec.PyMini Gen.Pure Spec.PyEnv.
+From Curtsies Require Import Model.Base Spec.PyMini Gen.Pure Gen.PureFmt Spec.PyEnv Spec.PyEnvFmt Model.Width.
 
 Module PureCorr.
 Record case := mkCase { c_ctx : ctx; c_fun : fundef; c_args : list val; c_expected : res val }.
-Definition model_ok (c : case) : bool := res_val_eqb (call_in (c_ctx c) (c_fun c) (c_args c)) (c_expected c).
+Definition model_ok (c : case) : bool := res_val_same (call_in (c_ctx c) (c_fun c) (c_args c)) (c_expected c).
 Definition spec_ok (c : case) : bool := true.
 
 (* compact notation for the arguments of get_key: a list of one-byte bytes objects, a
    member of Keynames *)
 Definition bl (l : list N) : val := VList (map (fun b => VBytes [b]) l).
 Definition kn (m : string) : val := VEnum "Keynames" m.
+(* a FmtStr given by its runs (Model/Base.v literals), as the object the interpreter works on;
+   a list of ints; the contexts of Spec/PyEnvFmt.v with the widths of the characters that are
+   not one column wide given as an association list *)
+Definition fs (f : fmtstr) : val := embed_fmtstr f.
+Definition zl (l : list Z) : val := VList (map VInt l).
+Definition cF1 (al : list (char * Z)) : ctx := ctxF1 (wc_of al).
+Definition cF2 (al : list (char * Z)) : ctx := ctxF2 (wc_of al).
 End PureCorr.
